@@ -533,3 +533,74 @@ MUTANTS += [
     {"name": "expression-soup:exhausted-ignored", "expect": "R20.3", "edits": _broken("pin-auth-expression-soup", "elif not (auth or exhausted):", "elif not auth:")},
     {"name": "ternary-gate:pin-logged-before-gate", "expect": "R20.2", "edits": _broken("handlers-ternary-gate", "        trusted = self.check_host_trust(request.environ)\n", '        _log("info", " * Debugger pin code: %s", self.pin)\n        trusted = self.check_host_trust(request.environ)\n')},
 ]
+
+
+# ---------------------------------------------------------------------------------------------
+# detection round (blind seed C20-G): hash_pin must be a function of the whole PIN (R20.4), the cookie pin_auth
+# issues must be the one check_pin_trust accepts (R20.3)
+
+HASH_PIN = 'def hash_pin(pin: str) -> str:\n    return hashlib.sha1(f"{pin} added salt".encode("utf-8", "replace")).hexdigest()[:12]\n'
+COOKIE_VALUE = '                f"{int(time.time())}|{hash_pin(pin)}",\n'
+SET_COOKIE = """            rv.set_cookie(
+                self.pin_cookie_name,
+                f"{int(time.time())}|{hash_pin(pin)}",
+"""
+
+TWINS += [
+    {"name": "hash-pin-locals-percent", "edits": [(D, HASH_PIN, """def hash_pin(pin: str) -> str:
+    salted = ("%s added salt" % pin).encode("utf-8", "replace")
+    digest = hashlib.sha1(salted)
+    return digest.hexdigest()[:12]
+""")]},
+    {"name": "hash-pin-update-style", "edits": [(D, HASH_PIN, """def hash_pin(pin: str) -> str:
+    h = hashlib.sha1()
+    h.update(pin.encode("utf-8", "replace"))
+    h.update(b" added salt")
+    return h.hexdigest()[:12]
+""")]},
+    {"name": "hash-pin-salting-helper", "edits": [(D, HASH_PIN, """def _salted(value: str) -> bytes:
+    return "{} added salt".format(value).encode("utf-8", "replace")
+
+
+def hash_pin(pin: str) -> str:
+    hexdigest = hashlib.sha1(_salted(pin)).hexdigest()
+    return hexdigest[0:12]
+""")]},
+    {"name": "hash-pin-renamed-parameter-local-import", "edits": [(D, HASH_PIN, """def hash_pin(value: str) -> str:
+    from hashlib import sha1 as _sha1
+
+    data = value.encode("utf-8", "replace") + b" added salt"
+    return _sha1(data).hexdigest()[:12]
+""")]},
+    {"name": "hash-pin-join-bytes", "edits": [(D, HASH_PIN, """def hash_pin(pin: str) -> str:
+    text = " ".join([pin, "added", "salt"])
+    return hashlib.sha1(bytes(text, "utf-8", "replace")).hexdigest()[:12]
+""")]},
+    {"name": "issued-cookie-percent-tuple", "edits": [(D, COOKIE_VALUE, '                "%d|%s" % (int(time.time()), hash_pin(pin)),\n')]},
+    {"name": "issued-cookie-join-keyword", "edits": [(D, SET_COOKIE, """            issued = int(time.time())
+            rv.set_cookie(
+                key=self.pin_cookie_name,
+                value="|".join([str(issued), hash_pin(self.pin)]),
+""")]},
+    {"name": "issued-cookie-format-two-slots", "edits": [(D, COOKIE_VALUE, '                "{}|{}".format(int(time.time()), hash_pin(pin)),\n')]},
+]
+
+MUTANTS += [
+    # the hash no longer depends on the PIN
+    {"name": "hash-pin:f-prefix-lost", "expect": "R20.4", "edits": [(D, 'hashlib.sha1(f"{pin} added salt".encode', 'hashlib.sha1("{pin} added salt".encode')]},
+    {"name": "hash-pin-percent:constant-formatted", "expect": "R20.4", "edits": _broken("hash-pin-locals-percent", '("%s added salt" % pin)', '("%s added salt" % "pin")')},
+    {"name": "hash-pin-update:pin-never-fed", "expect": "R20.4", "edits": _broken("hash-pin-update-style", '    h.update(pin.encode("utf-8", "replace"))\n', "")},
+    {"name": "hash-pin-helper:called-with-literal", "expect": "R20.4", "edits": _broken("hash-pin-salting-helper", "_salted(pin)", '_salted("pin")')},
+    {"name": "hash-pin-helper:helper-ignores-argument", "expect": "R20.4", "edits": _broken("hash-pin-salting-helper", '"{} added salt".format(value)', '"{value} added salt"')},
+    {"name": "hash-pin-renamed:parameter-shadowed", "expect": "R20.4", "edits": _broken("hash-pin-renamed-parameter-local-import", '    data = value.encode', '    value = "value"\n    data = value.encode')},
+    {"name": "hash-pin:empty-digest-prefix", "expect": "R20.4", "edits": [(D, '.encode("utf-8", "replace")).hexdigest()[:12]', '.encode("utf-8", "replace")).hexdigest()[12:12]')]},
+    {"name": "hash-pin:only-first-digits-hashed", "expect": "R20.4", "edits": [(D, 'hashlib.sha1(f"{pin} added salt".encode', 'hashlib.sha1(f"{pin[:3]} added salt".encode')]},
+    {"name": "hash-pin-join:length-instead-of-pin", "expect": "R20.4", "edits": _broken("hash-pin-join-bytes", '" ".join([pin, "added", "salt"])', '" ".join([str(len(pin)), "added", "salt"])')},
+    # the compared hash is not the hash of the configured PIN
+    {"name": "pin-trust-compares-hash-of-cookie-name", "expect": "R20.4", "edits": [(D, "        if pin_hash != hash_pin(self.pin):\n", "        if pin_hash != hash_pin(self.pin_cookie_name):\n")]},
+    # the issued cookie is not the one check_pin_trust accepts
+    {"name": "issued-cookie:hash-of-submitted-pin", "expect": "R20.3", "edits": [(D, COOKIE_VALUE, '                f"{int(time.time())}|{hash_pin(request.args.get(\'pin\', \'\'))}",\n')]},
+    {"name": "issued-cookie-percent:far-future-timestamp", "expect": "R20.3", "edits": _broken("issued-cookie-percent-tuple", "(int(time.time()), hash_pin(pin))", "(9999999999, hash_pin(pin))")},
+    {"name": "issued-cookie-join:raw-pin-written", "expect": "R20.3", "edits": _broken("issued-cookie-join-keyword", "hash_pin(self.pin)]", "str(self.pin)]")},
+    {"name": "issued-cookie-format:parts-swapped", "expect": "R20.3", "edits": _broken("issued-cookie-format-two-slots", "int(time.time()), hash_pin(pin)", "hash_pin(pin), int(time.time())")},
+]
